@@ -201,7 +201,7 @@ class COOData:
 
         """
         y = self.data * x[self.indices[1]]
-        z = np.zeros_like(x)
+        z = np.zeros(self.shape[0], dtype=np.result_type(self.data, x))
         np.add.at(z, self.indices[0], y)
         if D is not None:
             z[D] = x[D]
